@@ -280,6 +280,40 @@ func c18RunWorld(ins []c18Input, mode string, world string) int {
 	return 0
 }
 
+// c18History: sequences matter too — a node may stop at a block hook long after the transactions that
+// prepared it were answered normally.  Runs a directed scenario or a random history block by block and
+// reports progress; the parent watches for a dead or silent worker.
+func c18History(name string) int {
+	w := NewWorld(3, 5, 2)
+	var h *History
+	gen := "default"
+	if strings.HasPrefix(name, "random:") {
+		var seed int64
+		fmt.Sscanf(name[len("random:"):], "%d", &seed)
+		h = genHistory(rand.New(rand.NewSource(seed)), w, 30, 6)
+	} else {
+		h = scenarioHistory(name, w)
+		gen = scenarioGenesis(name)
+	}
+	rep := NewReplica(genesisVariant(w, gen), ReplicaOpts{NodeVal: w.Vals[0].Val})
+	rep.InitChain()
+	say("HSTART %s %d\n", name, len(h.Blocks))
+	for i := range h.Blocks {
+		say("HBLOCK %d\n", i+1)
+		for _, tx := range h.Blocks[i].Txs {
+			rep.CheckTx(tx)
+		}
+		rep.RunBlock(&h.Blocks[i])
+		hh, _ := rep.Info()
+		if hh != rep.H {
+			say("HSTOPPED %d\n", i+1)
+			return 4
+		}
+	}
+	say("HDONE %s\n", name)
+	return 0
+}
+
 func c18Main(args []string) int {
 	fs := flag.NewFlagSet("c18", flag.ExitOnError)
 	seed := fs.Int64("seed", 1, "seed")
@@ -287,7 +321,11 @@ func c18Main(args []string) int {
 	run := fs.String("run", "", "inputs file to run from")
 	ids := fs.String("ids", "", "comma separated ids to run (worker mode)")
 	mode := fs.String("mode", "both", "check|deliver|both")
+	hist := fs.String("history", "", "run a whole history in this process and report block by block: a scenario name, or random:<seed>")
 	fs.Parse(args)
+	if *hist != "" {
+		return c18History(*hist)
+	}
 	if *gen != "" {
 		ins := c18Generate(*seed)
 		bz, _ := json.Marshal(ins)
